@@ -1,5 +1,6 @@
 """Ring family: C01 (exact delivery), C02 (no overlap / stable slices).  DESIGN 6.1, 6.2."""
 import os
+import re
 import sys
 
 import vlib
@@ -96,6 +97,8 @@ def oracle(ops, out):
             v.append(("C03", "lock-discipline", "lock not released / acquired twice at op %d: %s" % (k, line), k))
         if w[0] == "w":
             n = int(w[1])
+            if pend is not None:
+                v.append(("-", "history-not-wf-for-impl", "write_map while a region is mapped", k)); return v
             if res[1] == "region":
                 off = int(res[2])
                 if off < 0 or off + n > cap:
@@ -115,6 +118,8 @@ def oracle(ops, out):
                 pend = (off, n)
             elif res[1] == "toobig" and n < cap:
                 v.append(("C03", "toobig-below-capacity", "request of %d < capacity %d rejected" % (n, cap), k))
+        elif w[0] in ("c", "a") and pend is None:
+            v.append(("-", "history-not-wf-for-impl", "commit/abort with no region mapped", k)); return v
         elif w[0] == "c":
             if pend and accepting:
                 off, n = pend
@@ -129,6 +134,8 @@ def oracle(ops, out):
             accepting = w[1] != "0"
         elif w[0] == "r":
             i = int(w[1])
+            if (i in rd and rd[i]["held"]) or i > len(rd):
+                v.append(("-", "history-not-wf-for-impl", "read_map on a mapped reader", k)); return v
             if res[1] == "-":
                 if i not in rd:
                     rd[i] = {"start": L, "consumed": 0, "ljoin": L, "held": None}
@@ -218,7 +225,8 @@ def run(ctx):
                 "joining at any time, partial consumption; non-trivial = the writer wrapped at least once and at least one non-empty read; "
                 "distinct = distinct op text")
     ctx.assumptions = ["one writer thread at a time (map, then commit or abort)", "64-bit wrap of the lap counter is not modelled",
-                       "readers are numbered in join order; at most 8"]
+                       "readers are numbered in join order; at most 8",
+                       "the stub platform.h replaces locks/condition variables in this sequential harness (the blocking protocol is C03's)"]
 
     def run_model(ops):
         return run_lines(orac, ops)[1]
@@ -230,8 +238,6 @@ def run(ctx):
         for fn in sorted(os.listdir(cdir)):
             ops = [l.strip() for l in open(os.path.join(cdir, fn)) if l.strip() and not l.startswith("#")]
             corpus.append(ops)
-    if corpus:
-        differential(ctx, prop, orac, impl, corpus, "corpus")
     nh = 40000 if thorough else 3000
     maxcap = 4096 if thorough else 64
     batch = []
@@ -241,15 +247,12 @@ def run(ctx):
         ops = gen_history(ctx.rng, cap, ctx.rng.randint(20, 200 if not thorough else 400), ctx.rng.randint(1, 8))
         batch.append(ops)
         ctx.count("cap<=12" if cap <= 12 else "cap<=64" if cap <= 64 else "cap>64")
-    # make well-formed with the model, sharded
     shards = vlib.shard(batch, vlib.NPROC)
 
     def fix(sh):
-        res = []
         flat = [o for h in sh for o in h]
         out = run_model(flat)
-        # drop NOTWF ops history by history (iterate to a fixpoint per shard)
-        while True:
+        while True:   # drop the ops the model flags as not well-formed at their point, to a fixpoint
             bad = {i for i, l in enumerate(out) if l.endswith("NOTWF")}
             if not bad:
                 break
@@ -258,16 +261,16 @@ def run(ctx):
         return split_histories(flat)
 
     fixed = vlib.parallel(fix, shards)
-    for hs in fixed:
+    if corpus:
+        fixed = [corpus] + fixed
+    for hs in fixed[1:3]:
         for h in hs[:1]:
             ctx.sample(h[:40])
-
     for hs in fixed:
         for h in hs:
             for o in h:
                 ctx.count("op:" + o.split()[0])
-    # differential in parallel: collect per-shard results through separate calls (ctx methods are not thread-safe
-    # for counters, so run the subprocesses in parallel and fold sequentially)
+
     def runpair(hs):
         flat = [o for h in hs for o in h]
         return run_lines(orac, flat), run_lines(impl, flat)
@@ -289,11 +292,24 @@ def fold(ctx, prop, impl, histories, rcm, mo, em, rci, io, ei):
         start = pos
         pos += len(h)
         if len(i) < len(h):
-            if start >= len(io) and len(io) > 0 or rci == 0:
+            # the implementation process died in this batch: re-run this history alone to attribute the crash
+            rc1, i1, e1 = run_lines(impl, h, timeout=60)
+            if len(i1) == len(h):
+                i = i1
+            else:
+                vs = oracle(h[:len(i1)], i1)
+                hit = False
+                for (p, key, msg, k) in vs:
+                    if key != "history-not-wf-for-impl" and p == prop and not ctx.has_violation(key):
+                        ctx.violation(msg, {"history": h[:len(i1)], "impl_output": i1}, key=key)
+                        hit = True
+                if not vs and not hit:
+                    m1 = re.search(r"ERROR: (\w+): ([\w-]+)", e1 or "")
+                    ctx.violation("implementation aborted (sanitizer report or crash) during a history: " + (m1.group(0) if m1 else (e1 or "")[-300:]),
+                                  {"history": h, "impl_output": i1, "stderr": (e1 or "")[-3000:]}, key="crash")
+                ctx.broken_tie("model/implementation disagreement on a channel history (implementation died)",
+                               {"history": h[:len(i1) + 1]})
                 continue
-            ctx.violation("implementation aborted (sanitizer report or crash) during a history: " + (ei or "")[-800:],
-                          {"history": h, "impl_output": i, "stderr": (ei or "")[-3000:]}, key="crash")
-            break
         nontriv = any(" region 0 | S 0 " in l and not l.startswith("W region 0 | S 0 0 0") for l in m) and \
             any(l.startswith("R ") and not l.startswith("R -") for l in m)
         ctx.case("\n".join(h), nontrivial=nontriv)
@@ -307,6 +323,8 @@ def fold(ctx, prop, impl, histories, rcm, mo, em, rci, io, ei):
             if l.startswith("R ") and "notify=1" in l:
                 ctx.count("res:lap-hop")
         for (p, key, msg, k) in oracle(h, i):
+            if key == "history-not-wf-for-impl":
+                continue
             if p == prop and not ctx.has_violation(key):
                 hh = minimise(ctx, impl, h, key)
                 ctx.violation(msg, {"history": hh, "impl_output": run_lines(impl, hh)[1],
